@@ -107,6 +107,69 @@ class MethodTask(T.Task):
         return {"a": f"{rnd.randrange(3 * 10 ** 8, 6 * 10 ** 8):010d}"}
 
 
+class DispatchTask(T.Task):
+    """BBAN('DE', b).validate_national_checksum() for a bank whose registry entry carries checksum_algo = m (or no
+    such key / no entry at all): uses DE:<m> on the account number if the library implements it, else accepts"""
+
+    def __init__(self, m):
+        from contracts import common as CC
+        self.m = m              # a method id, "<MISSING>" (entry without the key) or "<NONE>" (unlisted bank)
+        self.name = f"DE dispatch: checksum_algo={m}"
+        self.meta = {"method": m}
+        variant = None if m == "<NONE>" else m
+        self.contracts = {"schwifty.checksum.germany.digit_sum": digit_sum_contract,
+                          "schwifty.common.clean": CC.clean_contract,
+                          "schwifty.bban.BBAN.bank": CC.make_bank_contract(only=[variant])}
+        if m in G.BAND:
+            lo, up = G.BAND[m]
+            self.lower = lambda I, inp: I.call(lo, [SStr(inp["b"].chars[8:18])], {})
+            self.upper = lambda I, inp: I.call(up, [SStr(inp["b"].chars[8:18])], {})
+
+    def setup(self, I):
+        from contracts import common as CC
+        b, self.cl = CC.sym_bban(I, "DE")
+        return {"b": b}
+
+    def code(self, I, inp):
+        from schwifty import BBAN
+        obj = I.call(BBAN, ["DE", inp["b"]], {})
+        return I.call(I.getattr(obj, "validate_national_checksum"), [], {})
+
+    def observe(self, I, path):
+        o = T.std_observe(path)
+        if isinstance(o, T.ExcTag) and o.name == "InvalidBBANChecksum":
+            return False
+        return o
+
+    def spec(self, I, inp):
+        if self.m in G.EXACT:
+            return I.call(G.EXACT[self.m], [SStr(inp["b"].chars[8:18])], {})
+        return True         # unlisted bank, entry without method, or a method the library does not implement
+
+    def native_code(self, inp):
+        from unittest import mock
+        from schwifty import BBAN
+        entry = None if self.m == "<NONE>" else ({"bank_code": inp["b"][:8]} if self.m == "<MISSING>" else
+                                                 {"bank_code": inp["b"][:8], "checksum_algo": self.m})
+        with mock.patch.object(BBAN, "bank", new_callable=mock.PropertyMock, return_value=entry):
+            o = T.native_obs(lambda: BBAN("DE", inp["b"]).validate_national_checksum())
+        if isinstance(o, T.ExcTag) and o.name == "InvalidBBANChecksum":
+            return False
+        return o
+
+    def native_spec(self, inp):
+        return bool(G.EXACT[self.m](inp["b"][8:])) if self.m in G.EXACT else True
+
+    def native_band(self, inp):
+        if self.m in G.BAND:
+            lo, up = G.BAND[self.m]
+            return lo(inp["b"][8:]), up(inp["b"][8:])
+        return None
+
+    def sample(self, rnd):
+        return {"b": "".join(rnd.choice("0123456789") for _ in range(18))}
+
+
 def methods():
     from schwifty.checksum import algorithms
     return sorted(k[3:] for k in algorithms if k.startswith("DE:"))
@@ -119,6 +182,9 @@ def main(seed, tier):
     unspecified = [m for m in ms if m not in G.EXACT and m not in G.BAND]
     specs = [("props.c07", "DigitSumTask", ())] + [("props.c07", "MethodTask", (m,)) for m in ms
                                                    if m not in unspecified]
+    from contracts import common as CC
+    ids = [v for v in CC.bank_variants("DE")] + ["<NONE>"]
+    specs += [("props.c07", "DispatchTask", (m,)) for m in ids if m not in unspecified]
     results = common.run_tasks(specs, seed, tier)
     if unspecified:
         results.append(dict(task="DE methods", obligations=[], error=f"unsupported: no sidecar spec for registered "
